@@ -286,9 +286,36 @@ def r10_4(ctx):
         if fi.module.name != 'pool' or fi is mp:
             continue
         for (n, c) in q.calls(fi, 'self._join_exited_workers'):
-            ctx.ob('R10.4', 'reaper-called-outside-the-tick:%s' % fi.qual.split(':')[1], False, fi, c,
+            ok = _releases_one_slot_per_reaped(fi, n)
+            ctx.ob('R10.4', 'reaper-called-outside-the-tick:%s' % fi.qual.split(':')[1], ok, fi, c,
+                   'releases one slot per element of the reaper\'s result, like the tick' if ok else
                    '%s reaps exited workers itself and does not release one slot per reaped worker: the tick that '
                    'follows finds nobody to reap, replaces the worker and releases nothing' % fi.qual.split(':')[1])
+
+
+def _releases_one_slot_per_reaped(fi, reap_node):
+    """the result of the reaper call at reap_node is bound to a name, and on every normal path to the exit a loop over
+    that name (or range(len(name))) runs that releases the slot semaphore exactly once per iteration (unless the pool
+    has no semaphore)"""
+    cfg = fi.cfg
+    var = ast.unparse(reap_node.ast.targets[0]) if isinstance(reap_node.ast, ast.Assign) and \
+        isinstance(reap_node.ast.targets[0], ast.Name) else None
+    if var is None:
+        return False
+    loops = [n for n in cfg.where(lambda n: n.kind == 'for')
+             if ast.unparse(n.stmt.iter).replace(' ', '') in ('range(len(%s))' % var, var)]
+    if not loops:
+        return False
+    lp = loops[0]
+    rel = [n for (n, c) in q.calls(fi, 'self._putlock.release') if q.inside(fi, n, lp.stmt.body)]
+    nosem = q.outcome_edges(fi, 'self._putlock is None', True) | q.outcome_edges(fi, 'self._putlock', False)
+    if not rel or not q.every_iteration_passes(fi, lp, rel, block_edges=nosem)[0] or q.loop_early_exits(fi, lp):
+        return False
+    if not cfg.must_pass([reap_node], [cfg.exit], [lp], skip_labels=('x',))[0]:
+        return False
+    ids = {n.id for n in rel}
+    r = cfg.count_range([lp], [lp], lambda n: n.id in ids, skip_labels=('x',))
+    return r is not None and r[1] == 1
 
 
 def r10_5(ctx):
@@ -313,6 +340,8 @@ def run(ctx):
 
 _P = 'billiard/pool.py'
 MUTANTS = [
+    ('did_start_ok-drops-the-reaped-workers', 'billiard/pool.py', "        for _ in joined:\n            if self._putlock is not None:\n                self._putlock.release()\n        return not joined\n",
+     "        return not joined\n", 'R10.4'),
     ('shrink-reaps-exited-workers-itself', 'billiard/pool.py', "    def shrink(self, n=1):\n        for i, worker in enumerate(self._iterinactive()):\n",
      "    def shrink(self, n=1):\n        self._join_exited_workers()\n        for i, worker in enumerate(self._iterinactive()):\n", 'R10.4'),
     ('shrink-takes-the-slot-first', 'billiard/pool.py', "        self._initial_value -= 1\n        self.acquire()\n",
